@@ -300,6 +300,29 @@ def native_replay(crate, harness, values_path, profiles=("dev", "release")):
     return res
 
 
+def kani_replay(crate, h, values, timeout, mem_gb):
+    """Replay inside the model checker: compile the recorded values into the harness crate (feature `kreplay`) and let
+    CBMC execute exactly that run of the real code, with the same stubs. Used where a native replay is impossible
+    (thread schedules). Returns {outcome, output}."""
+    vfile = os.path.join(crate_dir(crate), "src", "kreplay_values.in")
+    body = "&[" + ", ".join("&[" + ", ".join(f"{b}u8" for b in v) + "]" for v in values) + "]\n"
+    open(vfile, "w").write(body)
+    try:
+        cmd = kani_cmd(crate, ["--features", "kreplay", "--harness", hpath(h["name"]), "--exact"] + h.get("kani_args", []))
+        st, out, wall = run_proc(cmd, crate_dir(crate), timeout, mem_gb=mem_gb)
+    finally:
+        open(vfile, "w").write("&[]\n")
+    r = parse_kani(out)
+    prop_failed = [f for f in r["failed"] if re.match(r"^C\d\d ", f["description"])]
+    if r["verdict"] == "failed" and prop_failed:
+        outcome = "reproduced"
+    elif r["verdict"] == "success":
+        outcome = "completed"
+    else:
+        outcome = "error"
+    return {"outcome": outcome, "exit": st, "failed": [f["description"] for f in r["failed"]][:6], "output": out[-2500:]}
+
+
 def load_known():
     p = os.path.join(VERIF, "known_findings.json")
     if not os.path.exists(p):
@@ -331,7 +354,16 @@ def do_replay_file(path):
     rp = json.load(open(path))
     vals_path = path + ".values"
     json.dump(rp["values"], open(vals_path, "w"))
-    res = native_replay(rp["crate"], rp["harness"], vals_path)
+    spec = None
+    for sp in registry.PROPS.values():
+        for h in sp["harnesses"]:
+            if h["name"] == rp["harness"] and sp["crate"] == rp["crate"]:
+                spec = h
+    if spec and spec.get("replay") == "kani":
+        sync_lock(rp["crate"])
+        res = {"kani-concrete": kani_replay(rp["crate"], spec, rp["values"], 3600, 32)}
+    else:
+        res = native_replay(rp["crate"], rp["harness"], vals_path)
     for prof, r in res.items():
         log(f"[replay {prof}] {r['outcome']}")
         log(r["output"][-1500:])
@@ -398,7 +430,10 @@ def check_property(pid, tier, jobs):
             for pb in pbs[:4]:
                 vals_path = os.path.join(logdir, r["name"] + ".values.json")
                 json.dump(pb["values"], open(vals_path, "w"))
-                nat = native_replay(crate, r["name"], vals_path)
+                if h.get("replay") == "kani":
+                    nat = {"kani-concrete": kani_replay(crate, h, pb["values"], r["timeout_s"], max(32, 2 * r["mem_cap_gb"]))}
+                else:
+                    nat = native_replay(crate, r["name"], vals_path)
                 attempts.append({"check": pb["description"], "values": pb["values"], "native": nat})
                 if any(x["outcome"] == "reproduced" for x in nat.values()):
                     reproduced = attempts[-1]
@@ -414,7 +449,7 @@ def check_property(pid, tier, jobs):
             r["reproduced"] = bool(reproduced)
             if not reproduced:
                 inconclusive.append({"harness": r["name"], "why": "counterexample_not_reproduced_natively"})
-                log(f"[{pid}]   {r['name']}: solver counterexample did NOT reproduce natively -> inconclusive ({rpath})")
+                log(f"[{pid}]   {r['name']}: solver counterexample did NOT reproduce in the replay -> inconclusive ({rpath})")
                 continue
             km = known_match(pid, r["name"], r["failed"], rec["values"])
             if km:
